@@ -896,7 +896,29 @@ func (g *Gen) Poison() Fragment {
 				}
 			}
 		case 4:
-			switch g.T.Draw(3) {
+			switch g.T.Draw(8) {
+			case 3:
+				// an already loaded scalar declared again, with a description and a
+				// directive it did not have
+				if sc := g.pickExisting("scalar"); sc != nil {
+					du := g.dirUse(sc.Dirs)
+					return Fragment{Kind: "poison:duplicate:scalar", Text: fmt.Sprintf("\"declared again %d\"\nscalar %s %s\n", g.T.Draw(99), sc.Name, du)}
+				}
+			case 4:
+				if union != nil && obj != nil {
+					return Fragment{Kind: "poison:duplicate:union", Text: fmt.Sprintf("\"again\"\nunion %s = %s\n", union.Name, obj.Name)}
+				}
+			case 5:
+				if input != nil {
+					return Fragment{Kind: "poison:duplicate:input", Text: fmt.Sprintf("\"again\"\ninput %s {\n  zz%d: Int = 3\n}\n", input.Name, g.T.Draw(9))}
+				}
+			case 6:
+				if it := g.pickExisting("interface"); it != nil {
+					return Fragment{Kind: "poison:duplicate:interface", Text: fmt.Sprintf("\"again\"\ninterface %s {\n  zz%d: Int\n}\n", it.Name, g.T.Draw(9))}
+				}
+			case 7:
+				// a built-in scalar declared again
+				return Fragment{Kind: "poison:duplicate:builtin_scalar", Text: fmt.Sprintf("\"mine\"\nscalar %s %s\n", []string{"Int", "String", "ID", "Time"}[g.T.Draw(4)], g.dirUse(nil))}
 			case 0:
 				if obj != nil {
 					return Fragment{Kind: "poison:duplicate:object", Text: fmt.Sprintf("type %s {\n  a: Int\n}\n", obj.Name)}
